@@ -212,7 +212,7 @@ Fixpoint get_msg (t : tm) : option tmsg :=
 
 Definition consumed (total rest : bytes) : tm := TN (N.of_nat (length total - length rest)).
 
-Definition run_msgs (t : tm) : tm :=
+Definition run_one (t : tm) : tm :=
   match t with
   | TL [TN 0] => tlist TB msg_registry
   | TL [TN 1] => tlist (tpair tz TB) err_registry
@@ -259,4 +259,19 @@ Definition run_msgs (t : tm) : tm :=
       let r := handshake_wait old chunk in
       TL [TB (fst r); topt (fun e => TN (merr_code e)) (snd r)]
   | _ => tm_err 0
+  end.
+
+(** a history: a list of ordinary operations performed one after the other on the real, pooled code
+    paths.  In the model every operation is a function of its operands only, so a history is the list of
+    the individual results; a step [(63 ..)] stands for an operation outside the model (the harness's
+    poison messages, which exist only to make an encode fail in a particular way) *)
+Definition run_step (t : tm) : tm :=
+  match t with
+  | TL (TN 99 :: _) => TL [TN 99]
+  | _ => run_one t
+  end.
+Definition run_msgs (t : tm) : tm :=
+  match t with
+  | TL [TN 10; TL steps] => TL (map run_step steps)
+  | _ => run_one t
   end.
